@@ -2,10 +2,12 @@
 package c05
 
 import (
+	"bytes"
 	"fmt"
 	"reflect"
 	"sort"
 	"strings"
+	"sync"
 
 	kmip "github.com/ovh/kmip-go"
 	"github.com/ovh/kmip-go/payloads"
@@ -405,6 +407,85 @@ func sequenceCase(c *core.Ctx, r *core.Rand, i int) {
 	c.Distinct(core.Hash64("sequence", enc, seq, fmt.Sprint(appendMode)))
 }
 
+// concurrentCase: messages for DIFFERENT versions are encoded at the same moment by several goroutines (the per-type
+// encode plans are shared process-wide); each output must be the layout of its own version.
+func concurrentCase(c *core.Ctx, r *core.Rand, i int) {
+	const G = 8
+	per := 24
+	type job struct {
+		msg   any
+		minor int
+		want  []byte
+	}
+	jobs := make([][]job, G)
+	for g := 0; g < G; g++ {
+		for k := 0; k < per; k++ {
+			minor := (g + k) % 5
+			if k%3 == 0 {
+				minor = []int{0, 4}[g%2] // the extremes, at the same moment
+			}
+			gg := gen.New(r, gen.Mode{Minor: minor, Gate: false, Text: gen.TextASCII, TextDates: true}, refmodel.Gates())
+			var msg any
+			if r.Bool() {
+				m := gg.Request(nil)
+				msg = &m
+			} else {
+				m := gg.Response(nil)
+				msg = &m
+			}
+			setVersion(msg, minor)
+			exp, err := refmodel.Tree(msg, minor)
+			if err != nil {
+				panic(err)
+			}
+			jobs[g] = append(jobs[g], job{msg, minor, wire.Gen(exp)})
+		}
+	}
+	type failure struct {
+		sig, what string
+		det       map[string]any
+	}
+	fails := make(chan failure, G*per)
+	start := make(chan struct{})
+	var wg sync.WaitGroup
+	for g := 0; g < G; g++ {
+		wg.Add(1)
+		go func(g int) {
+			defer wg.Done()
+			<-start
+			for _, j := range jobs[g] {
+				var out []byte
+				if p, pv, st := core.Guard(func() { out = ttlv.MarshalTTLV(j.msg) }); p {
+					fails <- failure{core.PanicSig(pv, st), fmt.Sprintf("concurrent encode panicked: %v", pv), map[string]any{"stack": st}}
+					continue
+				}
+				if !bytes.Equal(out, j.want) {
+					what := "differs"
+					sig := fmt.Sprintf("C05:concurrent:encode@1.%d", j.minor)
+					if got, perr := wire.Parse(out); perr == nil {
+						if exp, perr2 := wire.Parse(j.want); perr2 == nil {
+							if d := wire.DiffD(exp, got); d.Kind != "" {
+								what = d.Detail + " in " + c01.Where(d)
+								sig += ":" + d.Kind + ":" + c01.Where(d)
+							}
+						}
+					}
+					fails <- failure{sig, fmt.Sprintf("a message for version 1.%d encoded while other goroutines encode messages for other versions does not carry exactly the elements valid at its version: %s", j.minor, what),
+						map[string]any{"got": fmt.Sprintf("%x", out), "want": fmt.Sprintf("%x", j.want)}}
+				}
+			}
+		}(g)
+	}
+	close(start)
+	wg.Wait()
+	close(fails)
+	c.Count("concurrent_encodes", int64(G*per))
+	c.Distinct(core.Hash64("c05-concurrent", fmt.Sprint(i)))
+	for f := range fails {
+		c.Violation(f.sig, f.what, f.det)
+	}
+}
+
 func clipDoc(enc string, b []byte) string {
 	if enc == "ttlv" {
 		return fmt.Sprintf("%x", b)
@@ -421,9 +502,9 @@ func Spec() *core.Spec {
 			"(directly in its payload, in a batch of three at each position, CryptographicParameters as attribute value / inside KeyWrappingData of an object / inside a KeyWrappingSpecification, headers with and without authentication), " +
 			"plus seeded random messages whose gated fields are populated regardless of version; each encoded in binary, XML and JSON and compared with the reference layout at that version (text documents read by the harness's own readers), " +
 			"and the full 1.4 encoding with rewritten header version decoded; plus a diff of the version= annotations present in the tree against the pin. " +
-			"sequences of 2-4 messages of different versions through one encoder (appended, or cleared in between; three encodings); distinct = distinct expected layout shapes",
+			"8 goroutines encoding messages for different versions at the same moment; sequences of 2-4 messages of different versions through one encoder (appended, or cleared in between; three encodings); distinct = distinct expected layout shapes",
 		Assumptions: []string{"/verif/ref/version_gates.json is the pinned reading of KMIP 1.0-1.4 for the 61 fields; a field gated by the specification but unknown to both the library and the pin is invisible"},
-		Required:    []string{"messages", "decode_side_checks", "text_encoding_checks", "matrix.populated.present", "matrix.populated.absent", "matrix.unpopulated", "annotations_compared", "sequence_messages", "sequence_messages.appended"},
+		Required:    []string{"messages", "decode_side_checks", "text_encoding_checks", "matrix.populated.present", "matrix.populated.absent", "matrix.unpopulated", "annotations_compared", "sequence_messages", "sequence_messages.appended", "concurrent_encodes"},
 		Families: []core.Family{
 			{Name: "annotations", Exhaustive: true, N: func(string) int { return 1 }, Run: func(c *core.Ctx, r *core.Rand, i int) {
 				live := map[string]string{}
@@ -511,6 +592,12 @@ func Spec() *core.Spec {
 				}
 				return 1500
 			}, Run: sequenceCase},
+			{Name: "concurrent", N: func(tier string) int {
+				if tier == core.Thorough {
+					return 6000
+				}
+				return 60
+			}, Run: concurrentCase},
 			{Name: "random", N: func(tier string) int {
 				if tier == core.Thorough {
 					return 600000
